@@ -19,7 +19,8 @@ ASSUMPTIONS = ['the delimiter ("--" + boundary) occurs nowhere inside a part con
 FIELDS = {0: [['note', 'optText', False], ['f', 'optFile', False], ['fs', 'files', True]],
           1: [['title', 'text', False], ['doc', 'file', False]],
           2: [['a', 'text', False], ['b', 'text', False], ['pics', 'files', False]],
-          3: [['x', 'text', False], ['y', 'optText', False]]}
+          3: [['x', 'text', False], ['y', 'optText', False]],
+          4: [['user-name', 'text', False], ['pet photos', 'files', False], ['ü', 'optText', False], ['a.b[0]', 'optFile', False]]}          # names that are not identifiers (serde rename)
 MIMES = ['application/octet-stream', 'image/png', 'text/plain', 'text/plain; charset=utf-8', 'application/pdf', 'multipart/related', 'multipart/signed; micalg=sha-256', 'multipart/byteranges', 'message/rfc822',
          'application/x-www-form-urlencoded', 'multipart/form-data', 'MULTIPART/MIXEDX', 'x/y; a=b; c="d;e"']          # any media type (a part of type multipart/mixed itself is a nested multipart, which RFC 7578 deprecates: not generated)
 
@@ -106,7 +107,7 @@ def form_gen(rng, tid, boundary):
 
 
 def mk(rng):
-    tid = rng.randrange(4)
+    tid = rng.randrange(5)
     boundary = rng.choice(['XbX', '----WebKitFormBoundary7MA4YWxkTrZu0gW', 'b', "a'()+_,-./:=?", '0' * 70, 'boundary', 'AaB03x--', '--', '----form--', '-'])          # a boundary token may itself end in two hyphens
     parts, expected = form_gen(rng, tid, boundary)
     while any(('--' + boundary).encode() in p[3] for p in parts): boundary += 'Zq9'        # a conforming encoder picks a delimiter that occurs in no part
